@@ -73,6 +73,7 @@ def mkRd (b : Bytes) : SrcKind → Rd
 def skipModel (impl : String) (t : UInt8) (b : Bytes) (src : SrcKind) : String :=
   match impl with
   | "binary" => toutStr (fun n => toString n) (skipBin b t)
+  | "binstack" => toutStr (fun n => toString n) (skipBin b t)   -- the same function: where the buffer lives is not an input
   | "br" => toutStr (fun (p : Unit × Rd) => toString p.2.readLen) (skipBR t (mkRd b src))
   | "tplbytes" =>
     toutStr (fun (p : Bytes × BytesDec) => toHex p.1 ++ " " ++ toString p.2.b.length)
@@ -104,6 +105,7 @@ def skipVerdict (impl : String) (t : UInt8) (b : Bytes) (src : SrcKind) (res : S
     let parsed : Option (Nat × Option Bytes × Option Nat) :=
       match impl, rest with
       | "binary", [n] => n.toNat?.map (fun n => (n, none, none))
+      | "binstack", [n] => n.toNat?.map (fun n => (n, none, none))
       | "br", [rl] => rl.toNat?.map (fun n => (n, none, some n))
       | "tplbytes", [h, rem] => do
         let bs ← parseHex h
@@ -129,7 +131,7 @@ def skipVerdict (impl : String) (t : UInt8) (b : Bytes) (src : SrcKind) (res : S
       else "ok"
   | "err" :: e :: _ =>
     if r64.isSome && live then "bad:C02:rejected-valid"
-    else if impl == "binary" && !(e == "pe1" || e == "pe2" || e == "pe6") then "bad:C17:kind"
+    else if (impl == "binary" || impl == "binstack") && !(e == "pe1" || e == "pe2" || e == "pe6") then "bad:C17:kind"
     else "ok"
   | _ => "bad:protocol"
 
